@@ -197,6 +197,9 @@ def to_z3(v, ty=None):
         if set(v.cd) != set(ty.names):
             raise EngineError('dict keys %s do not match record %s' % (sorted(v.cd), ty.names))
         v = tuple(v.cd[n] for n in ty.names)
+    if isinstance(ty, TTuple) and type(v).__name__ == 'ConcreteList':
+        # a fixed-length heterogeneous list literal stored as a record (its later mutation is out of reach)
+        v = tuple(v)
     if isinstance(ty, TTuple):
         if not isinstance(v, tuple) or len(v) != len(ty.ts):
             raise EngineError('tuple shape mismatch %r vs %s' % (v, ty))
